@@ -8,6 +8,7 @@ _sxrt_fstr(parts)               f-string
 _sxrt_enter(qualname)           function entry (evidence: functions encoded)
 """
 import base64 as _base64
+import collections as _collections
 import binascii as _binascii
 import builtins
 import io as _io
@@ -659,6 +660,88 @@ class SMemoryView(object):
         pass
 
 
+class SOrderedDict(object):
+    """insertion-ordered mapping whose keys may be symbolic strings: lookup
+    compares the key with every stored key (solver-decided forks)"""
+    _sx_symbolic = False
+
+    def __init__(self, *a, **k):
+        self._k = []
+        self._v = []
+        if a or k:
+            for key, val in dict(*a, **k).items():
+                self[key] = val
+
+    def _find(self, key):
+        for i, k in enumerate(self._k):
+            if bool(k == key):
+                return i
+        return -1
+
+    def __getitem__(self, key):
+        i = self._find(key)
+        if i < 0:
+            raise KeyError(key)
+        return self._v[i]
+
+    def __setitem__(self, key, val):
+        i = self._find(key)
+        if i < 0:
+            self._k.append(key)
+            self._v.append(val)
+        else:
+            self._v[i] = val
+
+    def __delitem__(self, key):
+        i = self._find(key)
+        if i < 0:
+            raise KeyError(key)
+        del self._k[i]
+        del self._v[i]
+
+    def __contains__(self, key):
+        return self._find(key) >= 0
+
+    def __len__(self):
+        return len(self._k)
+
+    def __iter__(self):
+        return iter(list(self._k))
+
+    def keys(self):
+        return list(self._k)
+
+    def values(self):
+        return list(self._v)
+
+    def items(self):
+        return list(zip(self._k, self._v))
+
+    def get(self, key, default=None):
+        i = self._find(key)
+        return default if i < 0 else self._v[i]
+
+    def setdefault(self, key, default=None):
+        i = self._find(key)
+        if i < 0:
+            self._k.append(key)
+            self._v.append(default)
+            return default
+        return self._v[i]
+
+    def pop(self, key, *d):
+        i = self._find(key)
+        if i < 0:
+            if d:
+                return d[0]
+            raise KeyError(key)
+        v = self._v[i]
+        del self._k[i]
+        del self._v[i]
+        return v
+
+
+CLASS_MODELS[_collections.OrderedDict] = SOrderedDict
 CLASS_MODELS[_io.BytesIO] = SBytesIO
 CLASS_MODELS[bytearray] = SByteArray
 CLASS_MODELS[memoryview] = SMemoryView
@@ -842,7 +925,7 @@ BUILTIN_SUBST = {
 
 REWRITE_CALL_NAMES = frozenset(['isinstance', 'int', 'str', 'bytes', 'repr',
                                 'float', 'bytearray', 'memoryview',
-                                'BytesIO'])
+                                'BytesIO', 'OrderedDict'])
 
 
 def _sxrt_call(f, args, kw):
@@ -916,7 +999,6 @@ _CFUNC_TYPES = (types.BuiltinFunctionType, types.BuiltinMethodType,
                 types.MethodDescriptorType, types.WrapperDescriptorType,
                 types.MethodWrapperType, types.ClassMethodDescriptorType)
 
-import collections as _collections   # noqa: E402
 # containers whose C methods only store / move references
 _TRANSPARENT = frozenset([list, dict, tuple, set, frozenset,
                           _collections.deque, _collections.OrderedDict,
